@@ -5,7 +5,7 @@
         ParseOptions { parse_zero_length_strings: kani::any() }
     }
 
-    // @harness ids=C09,C01 tier=quick kind=proof units=app::parse::bytes::RangedBytesSequence::parse timeout=300 note="octet strings g110vN by range, 600 bytes available, every N 0..=255 and every range (0..=65536 objects): Ok iff N*count bytes present (and N != 0 unless zero-length strings are enabled); consumes and keeps exactly those bytes, remembers start index, size, count; else consumes nothing"
+    // @harness ids=C09,C01 tier=thorough kind=proof units=app::parse::bytes::RangedBytesSequence::parse timeout=300 note="octet strings g110vN by range, 600 bytes available, every N 0..=255 and every range (0..=65536 objects): Ok iff N*count bytes present (and N != 0 unless zero-length strings are enabled); consumes and keeps exactly those bytes, remembers start index, size, count; else consumes nothing"
     #[kani::proof]
     fn vk_c09_ranged_bytes_parse() {
         const L: usize = 601;
@@ -38,7 +38,7 @@
         }
     }
 
-    // @harness ids=C09,C01 tier=quick kind=proof units=app::parse::bytes::PrefixedBytesSequence::parse timeout=300 note="octet string events g111vN with 1- and 2-byte index prefix, 600 bytes available, every N and count: Ok iff (N+prefix)*count bytes present (and N != 0 unless enabled); consumes and keeps exactly those bytes; else consumes nothing"
+    // @harness ids=C09,C01 tier=thorough kind=proof units=app::parse::bytes::PrefixedBytesSequence::parse timeout=300 note="octet string events g111vN with 1- and 2-byte index prefix, 600 bytes available, every N and count: Ok iff (N+prefix)*count bytes present (and N != 0 unless enabled); consumes and keeps exactly those bytes; else consumes nothing"
     #[kani::proof]
     fn vk_c09_prefixed_bytes_parse() {
         prefixed_bytes_parse_contract::<u8>(1);
